@@ -57,7 +57,7 @@ CHECKS = {
              note="OS timings sampled; loopback loss is retried; timing bound uses handler-entry clocks so it holds under any scheduling", ref="4/C17"),
  "C18": dict(technique="TLC judge of the reference objects on the whole bounded domain (RefObjects.tla) + TLC model checking of RegisterHarness.tla + TLC judge of every reachable state of real register-harness models (log vs recorded tester history)",
              text="invoke/is_valid_step/is_valid_history of register, write-once register and vec agree with the specification for every object state reached by a short prefix and every (op, ret); the harness protocol (clients, hooks, arbitrary at-most-once server, three network kinds) is model-checked as a spec, and in every reachable state of the real ActorModel the LinearizabilityTester's recorded history equals the projection of the logged client-visible messages, is well-formed, with one outstanding operation and fresh request ids per client.",
-             note="bounded: <=2 servers, <=3 clients, put_count <=2, network <=4 messages; plain and write-once harness; thorough tier adds the shipped single-copy and ABD register examples run by the real checker against SingleCopy.tla / Abd.tla (exact state counts)", ref="4/C18"),
+             note="bounded: <=2 servers, <=3 clients, put_count <=2, network <=4 messages; plain and write-once harness; quick tier runs the shipped Paxos example (register clients, record hooks, tester state) by the real checker against Paxos.tla (exact unique and generated state counts); thorough tier adds 3 clients (1.19 M states) and the single-copy and ABD register examples against SingleCopy.tla / Abd.tla", ref="4/C18"),
  "C11": dict(technique="TLA+ observation validation against Graph!EvCex (maximal-path semantics), exactness on generated forests",
              text="Reported eventually-counterexamples are judged by TLC against the existence of a maximal in-boundary path avoiding the condition (terminal or cycle in the non-sat region); on forest-shaped graphs the converse is judged too.",
              note="trusts TLC; forests are recognised by Graph!IsForest", ref="4/C11"),
